@@ -103,7 +103,8 @@ def run_tlc(module, cfg, workdir, env_extra=None, workers=1, timeout=1800, extra
         env = dict(os.environ)
         if env_extra:
             env.update(env_extra)
-        cmd = ["java", "-XX:+UseParallelGC", "-Xss64m", "-Xmx6g", "-cp", JAVA_CP, "tlc2.TLC",
+        gc = ["-XX:ParallelGCThreads=2", "-XX:CICompilerCount=2"] if workers == 1 else []
+        cmd = ["java", "-XX:+UseParallelGC"] + gc + ["-Xss64m", "-Xmx6g", "-cp", JAVA_CP, "tlc2.TLC",
                "-workers", str(workers), "-metadir", os.path.join(scratch, "meta"), "-config", cfg] + list(extra) + [module]
         try:
             r = subprocess.run(cmd, cwd=scratch, env=env, capture_output=True, text=True, timeout=timeout)
